@@ -1,4 +1,94 @@
 package main
 
+import (
+	"go/ast"
+	"go/parser"
+	"go/token"
+	"os"
+	"path/filepath"
+	"sort"
+	"strings"
+)
+
+// c11Writers: every assignment to a field named `field` (last selector) in the non-test files below the given
+// directories, rendered `<file>:<func>:<lhs>=<rhs>`
+func c11Writers(field string, dirs ...string) []string {
+	var res []string
+	for _, dir := range dirs {
+		_ = filepath.Walk(filepath.Join(repo, dir), func(path string, info os.FileInfo, err error) error {
+			if err != nil || info.IsDir() || !strings.HasSuffix(path, ".go") || strings.HasSuffix(path, "_test.go") {
+				return nil
+			}
+			fset := token.NewFileSet()
+			f, err := parser.ParseFile(fset, path, nil, 0)
+			if err != nil {
+				return nil
+			}
+			rel, _ := filepath.Rel(repo, path)
+			for _, d := range f.Decls {
+				fd, ok := d.(*ast.FuncDecl)
+				if !ok || fd.Body == nil {
+					continue
+				}
+				ast.Inspect(fd.Body, func(n ast.Node) bool {
+					switch v := n.(type) {
+					case *ast.AssignStmt:
+						for i, l := range v.Lhs {
+							if sel, ok := l.(*ast.SelectorExpr); ok && sel.Sel.Name == field && i < len(v.Rhs) {
+								res = append(res, rel+":"+fd.Name.Name+":"+c05Expr(l)+"="+c05Expr(v.Rhs[i]))
+							}
+						}
+					case *ast.KeyValueExpr:
+						if id, ok := v.Key.(*ast.Ident); ok && id.Name == field {
+							res = append(res, rel+":"+fd.Name.Name+":{"+field+":"+c05Expr(v.Value)+"}")
+						}
+					}
+					return true
+				})
+			}
+			return nil
+		})
+	}
+	sort.Strings(res)
+	return res
+}
+
 func factsC11() {
+	// the update cycle of Model/C11Sync: HAProxyUpdate runs SyncConfig (derived attributes) BEFORE Shrink
+	// (comparison of the re-created items with the committed ones), both before the first write
+	var pro []string
+	for _, st := range methodDecl("pkg/haproxy/instance.go", "instance", "HAProxyUpdate").Body.List {
+		s := c12Stmt(st)
+		if strings.HasPrefix(s, "assign:") {
+			break
+		}
+		if s != "other" {
+			pro = append(pro, s)
+		}
+	}
+	addStrList("c11UpdatePrologue", pro, "instance.HAProxyUpdate: the statements before the first assignment, in source order")
+	// TLS.HasTLSAuth of a backend is written by config.SyncConfig only (never by a converter / annotation updater)
+	addStrList("c11HasTLSAuthWriters", c11Writers("HasTLSAuth", "pkg/haproxy", "pkg/converters"),
+		"every assignment to a field HasTLSAuth below pkg/haproxy and pkg/converters: <file>:<func>:<lhs>=<rhs>")
+	// ... for the hosts of ItemsAdd() only
+	var src []string
+	ast.Inspect(methodDecl("pkg/haproxy/config.go", "config", "SyncConfig").Body, func(n ast.Node) bool {
+		if c, ok := n.(*ast.CallExpr); ok {
+			if s := c05Expr(c.Fun); strings.HasPrefix(s, "c.hosts.Items") {
+				src = append(src, s)
+			}
+		}
+		return true
+	})
+	addStrList("c11SyncConfigHostSource", src, "config.SyncConfig: the host collections it reads (c.hosts.Items*)")
+	// Shrink compares hosts then backends; backendsMatch neutralises PathsMap, pathConfig and Endpoints only
+	var bm []string
+	for _, st := range funcDecl("pkg/haproxy/types/backends.go", "backendsMatch").Body.List {
+		if a, ok := st.(*ast.AssignStmt); ok && len(a.Lhs) == 1 && len(a.Rhs) == 1 {
+			if sel, ok := a.Lhs[0].(*ast.SelectorExpr); ok && c05Expr(sel.X) == "b1copy" {
+				bm = append(bm, sel.Sel.Name)
+			}
+		}
+	}
+	addStrList("c11BackendsMatchNeutralised", bm, "backendsMatch: the fields of the copy of the first backend overwritten with the second one's before DeepEqual")
 }
